@@ -26,7 +26,7 @@ VARIABLE kase    \* (a name no bound identifier of the extended modules uses: TL
                  \* whether a definition is constant and can be evaluated once)
 
 Alpha == <<"&", "<", ">", "\"", "'", "a", "#", ";", "l", "t", "g", "3", " ", "\n", "\r",
-           "é", "€", "\\", "%", "+", "/", "=">>
+           "é", "€", "\\", "%", "+", "/", "=", "n", "0", "u", "x">>
 AlphaChars == {Alpha[i] : i \in DOMAIN Alpha}
 
 IwbNs   == {1, 2, 3}
@@ -59,7 +59,7 @@ HtmlChars == {"&", "<", ">", "\"", "'", "a", "#", ";", "l", "t", "g", "3", " ", 
 AlphaFor(name) ==
   CASE name \in HtmlProducing -> Idx(HtmlChars)
     [] name = "escapeUri" -> Idx({"%", "+", " ", "a", "é", "€", "/", "&", "'", "=", "\n"})
-    [] name = "escapeJsString" -> Idx({"'", "\"", "\\", "\n", "\r", "<", "/", "a", "=", "é", "&", "€"})
+    [] name = "escapeJsString" -> Idx({"'", "\"", "\\", "\n", "\r", "<", "/", "a", "=", "é", "&", "n", "0", "u", "x"})
     [] name = "json" -> Idx({"\"", "\\", "\n", "<", "a", "é", "&", "'"})
     [] name = "truncate" -> Idx({"a", "é", "€", "<", " "})
     [] OTHER -> Idx({"a", "<", "&", "é"})
